@@ -302,9 +302,19 @@ private:
    * m_unproven_assertions and added to m_proved_assertions.
    **/
   void discharge_assertions(assumption_map_t &refined_assumptions,
-                            const idom_tree_t &idom) {
+                            const idom_tree_t &idom,
+                            const bwd_analyzer_t &B) {
     if (m_unproven_assertions.empty()) {
       return;
+    }
+
+    // The backward analysis only visits the blocks from which the
+    // exit block is reachable. An assertion located in any other block
+    // (e.g., in an infinite loop) was never considered by the backward
+    // analysis and hence, it cannot be discharged.
+    std::set<basic_block_label_t> visited_by_backward;
+    for (auto &kv : boost::make_iterator_range(B.begin(), B.end())) {
+      visited_by_backward.insert(kv.first);
     }
 
     if (!idom.empty()) {
@@ -331,11 +341,12 @@ private:
           m_unproven_assertions.erase(
               std::remove_if(
                   m_unproven_assertions.begin(), m_unproven_assertions.end(),
-                  [&n, &idom,
+                  [&n, &idom, &visited_by_backward,
                    this](std::pair<basic_block_label_t, statement_t *> &kv) {
                     const basic_block_label_t &m = kv.first;
                     statement_t *s = kv.second;
-                    bool res = this->dominates(n, m, idom);
+                    bool res = visited_by_backward.count(m) > 0 &&
+                               this->dominates(n, m, idom);
                     if (res) {
 		      CRAB_LOG("backward",
 			       crab::outs() << "Backward analysis proved " << *s
@@ -353,10 +364,18 @@ private:
       // block we know that we cannot violate them.
       auto it = refined_assumptions.find(m_cfg.entry());
       if (it->second.is_bottom()) {
-        for (auto &kv : m_unproven_assertions) {
-          m_proved_assertions.insert(kv.second);
-        }
-        m_unproven_assertions.clear();
+        m_unproven_assertions.erase(
+            std::remove_if(
+                m_unproven_assertions.begin(), m_unproven_assertions.end(),
+                [&visited_by_backward,
+                 this](std::pair<basic_block_label_t, statement_t *> &kv) {
+                  if (visited_by_backward.count(kv.first) > 0) {
+                    this->m_proved_assertions.insert(kv.second);
+                    return true;
+                  }
+                  return false;
+                }),
+            m_unproven_assertions.end());
       }
     }
   }
@@ -610,7 +629,7 @@ public:
 
         // If refined_assumptions can prove that s is safe then
         // remove assertion s from m_unproven_assertions
-        discharge_assertions(refined_assumptions, idom_tree);
+        discharge_assertions(refined_assumptions, idom_tree, *B);
         break;
       }
     } // end while true
